@@ -23,7 +23,7 @@ BV0, BV1 = z3.Int("#i"), z3.Int("#j")      # canonical bound variables for reduc
 _red_cache = {}
 
 DTYPES = {"int8": (1, True), "int16": (2, True), "int32": (4, True), "uint8": (1, False), "uint16": (2, False),
-          "uint32": (4, False), "float64": (8, None)}
+          "uint32": (4, False), "float64": (8, None), "int64": (8, True), "float32": (4, None)}
 
 
 class NpArr:
@@ -136,9 +136,15 @@ def install(eng, facts):
 
     def astype(e, arr, a, k):
         dt = dtype_of(e.force(a[0]))
-        if dt != "float64":
-            raise Unsupported("astype(%s)" % dt)
-        return NpArr(arr.shape, arr.at, arr.descr + ".f64")
+        if dt == "float64":
+            return NpArr(arr.shape, arr.at, arr.descr + ".f64")
+        if dt == "int64":
+            # conversion to a (wide) integer type truncates toward zero, element by element
+            def tr(*idx):
+                t = arr.at(*idx)
+                return z3.ToReal(z3.If(t >= 0, z3.ToInt(t), -z3.ToInt(-t)))
+            return NpArr(arr.shape, tr, arr.descr + ".i64")
+        raise Unsupported("astype(%s)" % dt)
 
     def reshape(e, arr, a, k):
         order = e.force(k.get("order", "C"))
@@ -223,12 +229,43 @@ def install(eng, facts):
 
     def np_array(e, a, k):
         x = e.force(a[0])
+        dt = k.get("dtype", a[1] if len(a) > 1 else None)
         if isinstance(x, NpArr):
-            return x
+            if dt is None:
+                return x
+            return astype(e, x, [dt], {})
         raise Unsupported("np.array of %r" % (x,))
+
+    def np_abs(e, a, k):
+        x = e.force(a[0])
+        if k or len(a) != 1:
+            raise Unsupported("numpy.abs with extra arguments")
+        if isinstance(x, NpArr):
+            return NpArr(x.shape, lambda *idx: (lambda t: z3.If(t < 0, -t, t))(x.at(*idx)), "abs")
+        raise Unsupported("np.abs of %r" % (x,))
+
+    def np_square(e, a, k):
+        x = e.force(a[0])
+        if k or len(a) != 1:
+            raise Unsupported("numpy.square with out= / extra arguments")
+        if isinstance(x, NpArr):
+            return NpArr(x.shape, lambda *idx: (lambda t: t * t)(x.at(*idx)), "square")
+        raise Unsupported("np.square of %r" % (x,))
 
     def np_max(e, a, k):
         x = e.force(a[0])
+        axis = e.force(k.get("axis", a[1] if len(a) > 1 else None))
+        if isinstance(x, NpArr) and x.ndim == 2 and axis is not None:
+            rows, cols = x.shape
+            if axis in (0, -2):
+                f = reduce_fn("max_rows", x.at(BV0, BV1), True, rows)
+                return NpArr((cols,), lambda i: f(I(i)), "max0")
+            if axis in (1, -1):
+                f = reduce_fn("max_cols", x.at(BV1, BV0), True, cols)
+                return NpArr((rows,), lambda j: f(I(j)), "max1")
+            raise Unsupported("np.max axis %r" % (axis,))
+        if axis is not None and not (isinstance(x, NpArr) and x.ndim == 1 and axis in (0, -1)):
+            raise Unsupported("np.max with axis on %r" % (x,))
         if isinstance(x, NpArr):
             if x.ndim == 0:
                 return x
@@ -250,6 +287,10 @@ def install(eng, facts):
     eng.lib["numpy.log10"] = pointwise(t_log10, "log10")
     eng.lib["numpy.clip"] = np_clip
     eng.lib["numpy.array"] = np_array
+    eng.lib["numpy.asarray"] = np_array
+    eng.lib["numpy.abs"] = np_abs
+    eng.lib["numpy.absolute"] = np_abs
+    eng.lib["numpy.square"] = np_square
     eng.lib["numpy.max"] = np_max
     eng.lib["numpy.min"] = np_min
     for dt in DTYPES:
